@@ -56,6 +56,8 @@ partial def showV : V → String
   | .tuple xs => "(" ++ ",".intercalate (xs.map showV) ++ ")"
   | .dict ks vs => "{" ++ ",".intercalate ((ks.zip vs).map fun (k, v) => hexStr k ++ "=" ++ showV v) ++ "}"
   | .obj c ks vs => c ++ "{" ++ ",".intercalate ((ks.zip vs).map fun (k, v) => k ++ "=" ++ showV v) ++ "}"
+  | .map ks vs => "{" ++ ",".intercalate ((ks.zip vs).map fun (k, v) => showV k ++ "=" ++ showV v) ++ "}"
+  | .float w bits => s!"F{w}:{bits}"
 
 def errName (e : PyErr) : String := (reprStr e).replace "PlumVerif.Py.PyErr." ""
 
